@@ -28,7 +28,7 @@ def gen_cases(seed: int, n_files: int, max_depth: int):
             langs = ["py", "ts", "js", "rs"]
         else:
             g = skel.Gen(r, skel.LANG_KINDS[lk], skel.LANG_FKINDS[lk], max_depth=max_depth,
-                         else_single_if_ok=(lk != "py"), curried=(lk == "ts"))
+                         else_single_if_ok=(lk != "py"), curried=(lk == "ts"), nobrace=(lk == "ts"))
             if lk == "ts":
                 g.max_handlers = 1
             langs = [mode]
